@@ -26,13 +26,14 @@ EXHAUSTIVE = True
 RULE = ('References are generated structurally as [stage<N>.]head[/path]:method, never parsed by the harness: '
         'head in 12 component-like names (A AA BA AB A-B A.B x A1B A2 0#A 1#A.B stage.B; explicit stage prefixes '
         'none/0/1/2 [+10 thorough]) + reserved folders (input data bin conf) + application-dependency folders '
-        '(app tool.v2) + manifest first segments (mf a c) + absolute paths (/abs/dir /abs) + variables (%(v)s %(v.w)s), '
+        '(app tool.v2 rel plain) + manifest first segments (mf a c) + absolute paths (/abs/dir /abs) + variables (%(v)s %(v.w)s), '
         'no prefix for non-names; path in {none, f.txt, d/f.txt, d/e/f.txt, d.e/f-1.txt, b/f.txt, sub/f.txt, '
         'run-%(v)s/f.txt, frames[3]} (the last two put a variable / an array index into the file path, not the '
         'producer) [+ *.txt, data/f.txt, stage1.A/f.txt, %(v.w)s.txt, d/%(v)s[0]/f.txt thorough]; all 8 reference methods. Contexts = 4 known-component sets '
         '(empty; two disjoint rotations; same name in two stages) x 4 manifests (empty; top-level + nested keys a/b, '
         'c/d/e; top-level a + nested mf/sub; keys x and A-B/sub that are component names elsewhere) x 2 '
-        'application-dependency lists [3 thorough] x owner stage 0/1 [+10 thorough], minus contexts where a known '
+        'application-dependency lists (empty; App.application, /abs/path/Tool.v2.application/, Rel.application/, '
+        '/abs/path/plain = relative/absolute x with/without trailing slash) [3 thorough] x owner stage 0/1 [+10 thorough], minus contexts where a known '
         'component shares a name with a folder (documented as unsupported). Layer str: every reference (context-free '
         'round trips, DataReference/ComponentIdentifier relative vs absolute); layer fn: every (reference, context) '
         'through the 5 classification/expansion functions; layer manifest: Manifest.top_level_folders of every context; '
@@ -66,7 +67,7 @@ ASSUMPTIONS = [
 ]
 
 NAMES = ['A', 'AA', 'BA', 'AB', 'A-B', 'A.B', 'x', 'A1B', 'A2', '0#A', '1#A.B', 'stage.B']
-APPDEP_HEADS = ['app', 'tool.v2']
+APPDEP_HEADS = ['app', 'tool.v2', 'rel', 'plain']
 MANIFEST_HEADS = ['mf', 'a', 'c']
 ABS_HEADS = ['/abs/dir', '/abs']
 VAR_HEADS = ['%(v)s', '%(v.w)s']
@@ -89,7 +90,9 @@ MANIFESTS = [
     {'a': '/src/a', 'mf/sub': '/src/mfsub:copy'},
     {'x': '/src/x:copy', 'A-B/sub': '/src/absub:link'},
 ]
-APPDEPS = [[], ['App.application', '/abs/path/Tool.v2.application']]
+# every spelling the package format documents for an entry: relative / absolute, with / without a trailing '/',
+# with / without an extension
+APPDEPS = [[], ['App.application', '/abs/path/Tool.v2.application/', 'Rel.application/', '/abs/path/plain']]
 APPDEPS_T = APPDEPS + [['x', 'Mf.application']]
 
 _STAGE_PREFIX = re.compile(r'^stage([0-9]+)\.')
@@ -471,6 +474,27 @@ def check_manifest(col, ctx):
                                      ('flat' if ctx['manifest'] else 'empty')))
 
 
+def check_appdeps(col, ctx):
+    """FlowIR.application_dependency_to_name for every declared entry: the folder the entry is unpacked into."""
+    from experiment.model.frontends.flowir import FlowIR
+    for a in ctx['appdeps']:
+        case = {'layer': 'appdep', 'ctx': ctx, 'entry': a}
+        col.evaluated()
+        col.nontriv('appdep|' + a)
+        try:
+            got = FlowIR.application_dependency_to_name(a)
+        except Exception as e:
+            got = 'raised %s' % type(e).__name__
+        want = R.appdep_folder(a)
+        shape = ('absolute' if a.startswith('/') else 'relative') + ('+trailing-slash' if a.endswith('/') else '')
+        if got != want:
+            col.outcome('appdep:FAIL')
+            col.fail(case, 'application_dependency_to_name(%r) = %r, the folder of this application dependency is %r'
+                     % (a, got, want), {'name': got, 'expected': want}, sig='appdep:name:%s' % shape)
+        else:
+            col.outcome('appdep:%s' % shape)
+
+
 def worker_fn(col, item, tier, seed):
     ci = item
     thorough = tier == 'thorough'
@@ -478,6 +502,7 @@ def worker_fn(col, item, tier, seed):
     base = contexts(thorough)[ci]
     tlf = product_folders(base)
     check_manifest(col, base)
+    check_appdeps(col, base)
     n = 0
     for stage in stage_set(thorough):
         ctx = with_stage(base, stage)
@@ -606,15 +631,21 @@ def run_doc(col, rec, ctx, refs_by_stage, scratch):
 _SCRATCH_PARENT = None   # set by run() before the fork pool starts: the parent removes it even if workers are killed
 
 
-def worker_doc(col, item, tier, seed):
+def _scratch(prefix):
+    """A scratch directory: below the run's own directory when there is one (workers), self-removing otherwise."""
+    import contextlib
+    import tempfile
     from verif.gen.pkg import scratch_dir
     if _SCRATCH_PARENT is not None and os.path.isdir(_SCRATCH_PARENT):
-        import contextlib
-        import tempfile
-
         @contextlib.contextmanager
-        def scratch_dir(prefix):  # noqa: F811 - same contract, but below the run's own directory
+        def below_parent():
             yield tempfile.mkdtemp(prefix=prefix, dir=_SCRATCH_PARENT)
+        return below_parent()
+    return scratch_dir(prefix)
+
+
+def worker_doc(col, item, tier, seed):
+    scratch_dir = _scratch
     ci = item
     thorough = tier == 'thorough'
     ctx = contexts(thorough)[ci]
@@ -639,6 +670,146 @@ def worker_doc(col, item, tier, seed):
     col.sample({'layer': 'doc', 'context': ctx, 'documents': docs, 'consumers': consumers})
 
 
+# --------------------------------------------------------------------------------------------- layer hist
+def hist_pairs(thorough):
+    """(known-set index, appdeps index, manifest index A, manifest index B): a configuration loaded under manifest A whose
+    manifest is then replaced by B. Both contexts must be supported."""
+    deps = APPDEPS_T if thorough else APPDEPS
+    ks = range(len(KNOWN_SETS)) if thorough else [0, 3]
+    out = []
+    for k, d, a, b in itertools.product(ks, range(len(deps)), range(len(MANIFESTS)), range(len(MANIFESTS))):
+        if a == b:
+            continue
+        ok = True
+        for m in (a, b):
+            ok = ok and R.context_is_supported({'known': known_for(k, thorough), 'manifest': MANIFESTS[m],
+                                                'appdeps': deps[d]})
+        if ok:
+            out.append((k, d, a, b))
+    return out
+
+
+def hist_context(k, d, m, thorough):
+    deps = APPDEPS_T if thorough else APPDEPS
+    return {'id': 'K%dM%dD%d' % (k, m, d), 'known': known_for(k, thorough), 'manifest': dict(MANIFESTS[m]),
+            'appdeps': list(deps[d])}
+
+
+def hist_references(ctx_a, ctx_b, thorough):
+    """Per owner stage: the references whose class under A differs from their class under B (that is where a stale
+    folder list shows), simplest shapes first."""
+    out = {}
+    for st in stage_set(thorough):
+        ca, cb = with_stage(ctx_a, st), with_stage(ctx_b, st)
+        refs = []
+        for r in references(thorough, paths=DOC_PATHS_Q, methods=['ref']):
+            if r['kind'] == 'var':
+                continue
+            a, b = R.classify(r, ca), R.classify(r, cb)
+            if a != b and b != 'excluded' and not (b == 'open' and r['path'] is not None):
+                refs.append(r)
+        out[st] = refs
+    return out
+
+
+def run_hist(col, rec, ctx_a, ctx_b, refs_by_stage, scratch):
+    """load(manifest A) -> parametrize(manifest B): everything is judged under B, the manifest in effect."""
+    import yaml
+    import experiment.model.conf as conf
+    doc, consumers = build_doc(ctx_a, refs_by_stage)
+    path = os.path.join(scratch, 'wf-hist-%s-%s.yaml' % (ctx_a['id'], ctx_b['id']))
+    with open(path, 'w') as f:
+        yaml.safe_dump(doc, f, sort_keys=False)
+    cfg = conf.ExperimentConfigurationFactory.configurationForExperiment(
+        path, manifest=dict(ctx_a['manifest']), createInstanceFiles=False, updateInstanceFiles=False, validate=False,
+        primitive=True)
+    cfg.parametrize(platform=None, variable_files=None, systemvars=None, is_instance=False, createInstanceFiles=False,
+                    primitive=True, updateInstanceFiles=False, variable_substitute=True, manifest=dict(ctx_b['manifest']),
+                    validate=False)
+    if sorted(cfg.manifestData) != sorted(ctx_b['manifest']):
+        raise HarnessError('parametrize(manifest=B) did not install manifest B: %r' % (cfg.manifestData,))
+    tlf = list(cfg.top_level_folders)
+    want_tlf = R.manifest_top_folders(ctx_b['manifest'])
+    history = {'loaded_with_manifest': dict(ctx_a['manifest']), 'then_parametrize_manifest': dict(ctx_b['manifest'])}
+    col.evaluated()
+    col.nontriv('hist-folders|%s>%s' % (ctx_a['id'], ctx_b['id']))
+    if sorted(set(tlf)) != sorted(set(want_tlf)):
+        stale = sorted(set(tlf)) == sorted(set(R.manifest_top_folders(ctx_a['manifest'])))
+        col.outcome('hist:folders:FAIL')
+        col.fail({'layer': 'hist', 'ctx': ctx_b, 'ctx_before': ctx_a, 'ref': None},
+                 'after load(manifest keys %s) and parametrize(manifest keys %s) the configuration reports manifest keys %s '
+                 'but top-level folders %r (expected %r)' % (sorted(ctx_a['manifest']), sorted(ctx_b['manifest']),
+                                                           sorted(cfg.manifestData), tlf, want_tlf),
+                 {'top_level_folders': tlf, 'expected': want_tlf, 'history': history},
+                 sig='hist:top_level_folders:' + ('stale' if stale else 'wrong'))
+    else:
+        col.outcome('hist:folders:follow-the-manifest')
+    concrete = cfg.get_flowir_concrete(return_copy=False)
+    errs = []
+    cfg.validate(errs)
+    per, other = errors_by_consumer(errs, consumers)
+    if other:
+        raise HarnessError('unexpected validation errors in the generated document for history %s -> %s: %r'
+                           % (ctx_a['id'], ctx_b['id'], other[:3]))
+    for (st, name), ref in consumers.items():
+        c = with_stage(ctx_b, st)
+        s = R.spell(ref)
+        cls = R.classify(ref, c)
+        cls_before = R.classify(ref, with_stage(ctx_a, st))
+        ab = R.absolute_spelling(ref, c)
+        stored = list(concrete.get_component((st, name)).get('references', []))
+        obs = {'top_level_folders': tlf, 'loader_references': stored, 'loader_errors': per.get((st, name), []),
+               'history': history, 'class_under_first_manifest': cls_before}
+        case = {'layer': 'hist', 'ref': ref, 'ctx': c, 'ctx_before': ctx_a}
+        col.evaluated()
+        col.nontriv('hist|%s|%s>%s|%d' % (s, ctx_a['id'], c['id'], st))
+        problems = []
+        if len(stored) != 1:
+            problems.append(('the configuration stores %d references %r for the single reference %r' % (len(stored), stored, s),
+                             'parametrize', 'reference-count'))
+        elif cls.startswith('not-component'):
+            why = cls.split(':', 1)[1]
+            if has_stage_prefix(stored[0]):
+                problems.append(('after the manifest was replaced the configuration rewrites %r (first segment: %s under '
+                                 'the manifest in effect) to the component reference %r' % (s, why, stored[0]),
+                                 'parametrize', 'treated-as-component'))
+            elif stored[0] != s:
+                problems.append(('the configuration changes the direct reference %r to %r' % (s, stored[0]), 'parametrize',
+                                 'direct-reference-changed'))
+        elif cls == 'component':
+            if stored[0] != ab:
+                problems.append(('after the manifest was replaced the configuration stores %r for %r of stage %d, expected '
+                                 'the absolute spelling %r of the known component' % (stored[0], s, st, ab), 'parametrize',
+                                 'wrong-absolute-form' if has_stage_prefix(stored[0]) else 'not-treated-as-component'))
+        elif stored[0] not in (s, ab):
+            problems.append(('the configuration stores %r for %r of stage %d: neither the reference nor its absolute '
+                             'spelling %r' % (stored[0], s, st, ab), 'parametrize', 'wrong-absolute-form'))
+        if cls != 'open' and obs['loader_errors']:
+            what = 'first segment: %s' % cls.split(':', 1)[1] if cls.startswith('not-component') else 'known component'
+            problems.append(('after the manifest was replaced validation reports unknown component(s) %s for the reference '
+                             '%r (%s under the manifest in effect)' % (obs['loader_errors'], s, what), 'validate',
+                             'unknown-component-error'))
+        if problems:
+            rec.fail('hist', case, cls, problems, obs,
+                     '; loaded with manifest keys %s, then parametrize(manifest keys %s)%s'
+                     % (sorted(ctx_a['manifest']), sorted(ctx_b['manifest']), describe(c, tlf)))
+            col.outcome('hist:FAIL:%s' % cls)
+        else:
+            col.outcome('hist:%s-was-%s' % (cls.split(':')[0], cls_before.split(':')[0]))
+
+
+def worker_hist(col, item, tier, seed):
+    thorough = tier == 'thorough'
+    k, d, a, b = item
+    ctx_a, ctx_b = hist_context(k, d, a, thorough), hist_context(k, d, b, thorough)
+    refs = hist_references(ctx_a, ctx_b, thorough)
+    with _scratch('c09-') as sd:
+        run_hist(col, Recorder(col), ctx_a, ctx_b, refs, sd)
+    col.count('histories')
+    col.sample({'layer': 'hist', 'loaded_with': ctx_a, 'then_manifest': ctx_b['manifest'],
+                'consumers': sum(len(v) for v in refs.values())})
+
+
 # --------------------------------------------------------------------------------------------- entry points
 def run(ctx):
     thorough = ctx.thorough
@@ -655,6 +826,7 @@ def run(ctx):
         _SCRATCH_PARENT = parent
         try:
             ctx.pmap('verif.props.c09', 'worker_doc', list(range(len(ctxs))), maxtasksperchild=4)
+            ctx.pmap('verif.props.c09', 'worker_hist', hist_pairs(thorough), maxtasksperchild=8)
         finally:
             _SCRATCH_PARENT = None
 
@@ -667,10 +839,25 @@ def replay(ctx, case):
         check_str(ctx, rec, case['ref'], thorough)
     elif layer == 'manifest':
         check_manifest(ctx, norm_ctx(case['ctx']))
+    elif layer == 'appdep':
+        c = norm_ctx(case['ctx'])
+        c['appdeps'] = [case['entry']]
+        check_appdeps(ctx, c)
     elif layer == 'fn':
         c = norm_ctx(case['ctx'])
         others = [x for x in stage_set(thorough) + [2] if x != c['stage']]
         check_fn(ctx, rec, case['ref'], c, product_folders(c), others[0])
+    elif layer == 'hist':
+        from verif.gen.pkg import scratch_dir
+        c, before = norm_ctx(case['ctx']), norm_ctx(case['ctx_before'])
+        st = c.get('stage', 0)
+        refs = {st: [case['ref']]} if case.get('ref') else hist_references(before, c, thorough)
+        with scratch_dir('c09-') as d:
+            run_hist(ctx, rec, before, c, refs, d)
+        if not case.get('ref'):
+            keep = [f for f in ctx.failures if not f['case'].get('ref')]
+            ctx.failures[:] = keep
+            ctx.n_failures = len(keep)
     elif layer == 'doc':
         from verif.gen.pkg import scratch_dir
         c = norm_ctx(case['ctx'])
